@@ -11,6 +11,7 @@ theorem code_atomic : Generated.capiTxnStmtAtomic = true := by decide
 theorem code_reads_committed : Generated.capiTxnReadsStaged = false := by decide
 theorem create_node_first : Generated.createStagesNodeBeforeProps = true := by decide
 theorem autocommit_drops : Generated.capiAutoCommitDropsTxnOnError = true := by decide
+theorem autocommit_unconditional : Generated.capiAutoCommitUnconditional = true := by decide
 
 theorem codeStep_def : codeStep = step true false := by
   unfold codeStep; rw [code_atomic, code_reads_committed]
@@ -119,6 +120,7 @@ theorem exec_frame (g : Graph) (ps : List Prim) (n : Nat) (s : Stmt)
   | del l => simp only [exec]; rw [scan_applyAll ps g l (h l rfl)]
   | merge l k => simp only [exec]; rw [scan_applyAll ps g l (h l rfl)]
   | setrep l ds => simp only [exec]; rw [scan_applyAll ps g l (h l rfl)]
+  | mergeset l k w => simp only [exec]; rw [scan_applyAll ps g l (h l rfl)]
 
 theorem execCreate_lbl (l : Nat) (w : Bool) (rows : List (Nat × Q)) : ∀ id, ∀ p ∈ (execCreate l w id rows).prims, p.lbl = l := by
   induction rows with
@@ -205,6 +207,13 @@ theorem exec_writes (g : Graph) (n : Nat) (s : Stmt) : ∀ p ∈ (exec g n s).pr
     · simp at hp
     · simp only [List.mem_singleton] at hp; subst hp; rfl
   | setrep l ds => simp only [exec] at hp; simp [Stmt.writes, execSetRep_lbl l _ ds p hp]
+  | mergeset l k w =>
+    simp only [exec] at hp
+    split at hp
+    · simp only [List.mem_singleton] at hp; subst hp; rfl
+    · simp only [List.mem_map] at hp
+      obtain ⟨a, _, rfl⟩ := hp
+      rfl
 
 /-- without the trigger the code's step is the read-your-writes step -/
 theorem step_ryw_eq (atomic : Bool) (σ : State) (op : Op)
@@ -242,7 +251,9 @@ theorem tracks_step (atomic : Bool) (σ : State) (w : Option (List Nat)) (op : O
       have hw : w = none := h.open_iff.1 rfl
       subst hw
       simp only [step, track]
-      split <;> exact ⟨by simp, by simp⟩
+      split
+      · exact ⟨by simp, by simp⟩
+      · split <;> exact ⟨by simp, by simp⟩
   | begin =>
     cases st with
     | some ps =>
